@@ -1,0 +1,26 @@
+//go:build verif
+// +build verif
+
+package p2p
+
+// VerifSendRaw queues raw bytes as one message on a channel of the peer's connection - what Send
+// does after encoding its argument (build tag verif only): lets the harness put arbitrary bytes
+// in front of the remote reactor's Receive.
+func (p *Peer) VerifSendRaw(chID byte, raw []byte) bool {
+	c := p.mconn
+	if !c.IsRunning() {
+		return false
+	}
+	channel, ok := c.channelsIdx[chID]
+	if !ok {
+		return false
+	}
+	if !channel.trySendBytes(raw) {
+		return false
+	}
+	select {
+	case c.send <- struct{}{}:
+	default:
+	}
+	return true
+}
